@@ -182,6 +182,10 @@ def sampling(tier, rng, rep):
             A = rng.normal(size=(3, k1, n + 1)); B = rng.normal(size=(3, k2, n + 1))
             if t % 3 == 2:       # subspaces of complex projective space
                 A = A + 1j * rng.normal(size=A.shape); B = B + 1j * rng.normal(size=B.shape)
+            if t % 4 == 1:       # long spanning vectors on the first operand (a subspace does not depend on the length of the vectors spanning it)
+                A = A * 10.0 ** float(rng.choice([9, 12]))
+            elif t % 4 == 3:     # ... or one long spanning vector per subspace
+                A = A.copy(); A[:, 0, :] *= 1e10
             for mode, Bm in (("elementwise", B), ("pairwise", B[:2]), ("pairwise", B)):
                 d = k1 + k2 - (n + 1)
                 inp = {"n": n, "k1": k1, "k2": k2, "mode": mode, "A_re": A.real.tolist(), "A_im": np.imag(A).tolist(), "B_re": Bm.real.tolist(), "B_im": np.imag(Bm).tolist()}
@@ -195,9 +199,11 @@ def sampling(tier, rng, rep):
                 for idx in np.ndindex(*S.shape[:-2]):
                     a = A[idx[0]]; b = Bm[idx[0]] if mode == "elementwise" else Bm[idx[1]]
                     s = S[idx]
-                    if np.linalg.matrix_rank(s, tol=1e-8) != d:
+                    # (ranks of row-normalised stacks: the spanning vectors may be of very different length)
+                    un = lambda m_: m_ / np.linalg.norm(m_, axis=-1, keepdims=True)
+                    if np.linalg.matrix_rank(un(s), tol=1e-8) != d:
                         rep.fail("intersect_dimension", "rank deficient result", inp)
-                    if np.linalg.matrix_rank(np.vstack([a, s]), tol=1e-7) != k1 or np.linalg.matrix_rank(np.vstack([b, s]), tol=1e-7) != k2:
+                    if np.linalg.matrix_rank(np.vstack([un(a), un(s)]), tol=1e-6) != k1 or np.linalg.matrix_rank(np.vstack([un(b), un(s)]), tol=1e-6) != k2:
                         rep.fail("intersect_in_both", f"result rows not in both subspaces at index {idx}", inp)
                 rep.case(key=("int", t, mode, len(Bm)), sample=inp if t == 0 else None)
         # --- eigenvector / diagonalize
